@@ -1114,6 +1114,14 @@ class Collocator:
                     for dim in output[name].get_index("collocation").names
                 ])
 
+                # A multi-index coordinate cannot be overwritten in place
+                # (xarray refuses to corrupt the index), hence drop the
+                # index together with its levels first:
+                output[name] = output[name].drop_vars([
+                    "collocation",
+                    *output[name].get_index("collocation").names
+                ])
+
             # Okay, actually we want to get rid of the main coordinate. It
             # should stay as a dimension name but without own labels. I.e. we
             # want to drop it. Because it still may a MultiIndex, we cannot
